@@ -1,6 +1,8 @@
 package main
 
 import (
+	"os"
+	"path/filepath"
 	"strconv"
 	"strings"
 
@@ -217,6 +219,10 @@ func flattenTwice(kind, text string) (flat, acc, flat2, acc2 J, ok bool) {
 	}
 	flat, acc = project()
 	flat2, acc2 = project()
+	if kind == "dsc" || kind == "changes" {
+		v := absFilesViaFile(kind, text)
+		acc["AbsFilesViaFile"], acc2["AbsFilesViaFile"] = v, v
+	}
 	return flat, acc, flat2, acc2, true
 }
 
@@ -254,6 +260,47 @@ func flattenSecond(kind, first, text string) (flat, acc, flat2, acc2 J, ok bool)
 	flat, acc = project()
 	flat2, acc2 = project()
 	return flat, acc, flat2, acc2, true
+}
+
+// absFilesViaFile: the same document parsed by the *File function through a RELATIVE path (the process stands in the
+// parent directory): AbsFiles must still name absolute paths.  The temporary directory is written as /srv/pool in the
+// result, so that it compares with the reader variant's paths.
+func absFilesViaFile(kind, text string) []interface{} {
+	out := []interface{}{}
+	dir, err := os.MkdirTemp("", "verif-absfiles-")
+	if err != nil {
+		return out
+	}
+	defer os.RemoveAll(dir)
+	dir, _ = filepath.EvalSymlinks(dir)
+	os.Mkdir(filepath.Join(dir, "incoming"), 0755)
+	name := map[string]string{"dsc": "x.dsc", "changes": "x.changes"}[kind]
+	os.WriteFile(filepath.Join(dir, "incoming", name), []byte(text), 0644)
+	cwd, _ := os.Getwd()
+	defer os.Chdir(cwd)
+	os.Chdir(dir)
+	paths := []string{}
+	if kind == "dsc" {
+		d, err := control.ParseDscFile(filepath.Join("incoming", name))
+		if err != nil {
+			return out
+		}
+		for _, f := range d.AbsFiles() {
+			paths = append(paths, f.Filename)
+		}
+	} else {
+		c, err := control.ParseChangesFile(filepath.Join("incoming", name))
+		if err != nil {
+			return out
+		}
+		for _, f := range c.AbsFiles() {
+			paths = append(paths, f.Filename)
+		}
+	}
+	for _, pth := range paths {
+		out = append(out, B(strings.Replace(pth, filepath.Join(dir, "incoming")+"/", "/srv/pool/", 1)))
+	}
+	return out
 }
 
 func flatten(kind, text string) (flat J, acc J, ok bool) {
